@@ -808,3 +808,36 @@ func init() {
 }
 
 var _ = transaction.TxnTypeSmartContract
+
+// genMintRun is a long run of clean mints (all registered authorizers sign, fresh nonces) spread over
+// several blocks, with an occasional replayed nonce: the minted-nonce partitions fill up and overflow
+// (partition size 5), so the pack / new-partition paths run under every core oracle (C06: the same
+// block executed from a warm and from a cold state cache).
+func genMintRun(r *sim.RNG, p *sim.Plan, tier string) []sim.Step {
+	if p.CfgInt("funding", 0) < 1e13 {
+		p.Cfg["funding"] = 1e13
+	}
+	var out []sim.Step
+	// 70 % of authorizers must sign, fee 1, minimum mint/burn 1 coin unit, sent by the owner
+	out = append(out, sim.Step{Op: "br.cfg", A: 0, I: []int64{70, 1, 1, 1, 0}})
+	na := 1 + r.Intn(4)
+	for j := 0; j < na; j++ {
+		out = append(out, sim.Step{Op: "br.auth", A: r.Intn(8), I: []int64{int64(j), int64(r.Intn(6)), int64(1 + r.Intn(4)), 0, 0}})
+	}
+	for j := 0; j < na; j++ {
+		out = append(out, sim.Step{Op: "br.stake", A: r.Intn(5), I: []int64{int64(j), 0}})
+	}
+	out = append(out, sim.Step{Op: "block", I: []int64{0, 0}})
+	n := r.Range(7, 16)
+	if tier == "thorough" {
+		n = r.Range(7, 40)
+	}
+	for i := 0; i < n; i++ {
+		nonceKind := int64(r.Pick([]int{12, 1}))
+		out = append(out, sim.Step{Op: "br.mint", A: r.Intn(5), I: []int64{0, int64(r.Pick([]int{3, 1, 2})), nonceKind, int64(r.Intn(64)), 127, 0, 0, 0, 0, int64(r.Intn(1 << 20)), 0, 0}})
+		if r.Intn(3) == 0 {
+			out = append(out, sim.Step{Op: "block", I: []int64{0, int64(r.Intn(2))}})
+		}
+	}
+	return out
+}
